@@ -257,7 +257,7 @@ def shards(tier, seed):
             continue
         big = os.path.getsize(os.path.join(REPO, f)) > 300000
         for k in range(n):
-            parts = (8 if tier == 'quick' else 16) if big else 1
+            parts = (4 if tier == 'quick' else 16) if big else 1
             for part in range(parts):
                 sh.append(('file', f, k, part, parts))
     ngen = 2 if tier == 'quick' else 8
@@ -302,9 +302,15 @@ def run_shard(ctx, shard):
     run_children(ctx, source, sorted(base), ctx.tier, base, label, raw=d._vf_raw)
 
 
+_LOADED = {}
+
+
 def replay(ctx, case):
     source = tuple(case['source'])
-    d, dx, methods = load(source)
+    if source not in _LOADED:
+        _LOADED.clear()
+        _LOADED[source] = load(source)
+    d, dx, methods = _LOADED[source]
     by = {mkey(m): i for i, m in enumerate(methods)}
     if case['method'] not in by:
         raise HarnessError('replay: method %r not in %r' % (case['method'], source))
@@ -314,7 +320,7 @@ def replay(ctx, case):
     if len(seeds) < 12:
         seeds = seeds + [s + 1000003 for s in seeds] + list(range(12 - len(seeds)))
     key, h, _ = check_method(ctx, source, dx, methods, idx, seeds, case.get('others') or [idx + 1, idx + 2, idx + 3], label)
-    run_children(ctx, source, [key], 'thorough', {key: h}, label, raw=d._vf_raw)
+    run_children(ctx, source, [key], 'quick', {key: h}, label, raw=d._vf_raw)
 
 
 if __name__ == '__main__':
